@@ -22,6 +22,7 @@ import (
 	v2 "mosn.io/mosn/pkg/config/v2"
 	"mosn.io/mosn/pkg/configmanager"
 	"mosn.io/mosn/pkg/featuregate"
+	"mosn.io/mosn/pkg/network"
 	"mosn.io/mosn/pkg/protocol"
 	"mosn.io/mosn/pkg/router"
 	"mosn.io/mosn/pkg/server"
@@ -124,6 +125,13 @@ func genRouterCfg(ch *sim.Choices, name string) *v2.RouterConfiguration {
 		vhs = append(vhs, vh)
 	}
 	rc.VirtualHosts = vhs
+	// settings of the router itself (they apply to every route): a version stamp on requests and responses
+	ver := fmt.Sprintf("v%d", ch.Pick("work", "rcfgver", 4))
+	rc.RequestHeadersToAdd = []*v2.HeaderValueOption{{Header: &v2.HeaderValue{Key: "x-cfg", Value: ver}}}
+	rc.ResponseHeadersToAdd = []*v2.HeaderValueOption{{Header: &v2.HeaderValue{Key: "x-rcfg", Value: ver}}}
+	if ch.Bool("work", "rcfgremove") {
+		rc.RequestHeadersToRemove = []string{"x-drop"}
+	}
 	return rc
 }
 
@@ -660,6 +668,15 @@ func routeBattery(rs types.Routers) string {
 			if rs != nil {
 				if rt := rs.MatchRoute(ctx, hdr); rt != nil && rt.RouteRule() != nil {
 					res = rt.RouteRule().ClusterName(ctx)
+					// ... and what the route (with its virtual host and router) does to the headers
+					req := protocol.CommonHeader(map[string]string{"service": fmt.Sprintf("svc%d", k), "x-drop": "1"})
+					rt.RouteRule().FinalizeRequestHeaders(ctx, req, network.NewRequestInfo())
+					rsp := protocol.CommonHeader(map[string]string{})
+					rt.RouteRule().FinalizeResponseHeaders(ctx, rsp, network.NewRequestInfo())
+					cfg, _ := req.Get("x-cfg")
+					_, kept := req.Get("x-drop")
+					rcfg, _ := rsp.Get("x-rcfg")
+					res += fmt.Sprintf("[%s,%v,%s]", cfg, kept, rcfg)
 				}
 			}
 			fmt.Fprintf(&b, "%s/%d=%s ", host, k, res)
